@@ -516,6 +516,10 @@ def draw_common_options(rng, fp, force=()):
         if rng.random() < .3 or "crop" in force:
             tr = fp["t_ref"]
             a, b = sorted(rng.uniform(tr[0], tr[-1], size=2).tolist())
+            if rng.random() < .5:
+                # bounds that are stamps of the reference (both bounds are inclusive)
+                ia, ib = sorted(rng.integers(0, len(tr), size=2).tolist())
+                a, b = float(tr[ia]), float(tr[ib])
             if rng.random() < .7 and a > 0:
                 o["t_start"] = a
                 argv += ["--t_start", repr(a)]
